@@ -125,6 +125,17 @@ func (r *memRepo) Delete(_ context.Context, key string) error {
 }
 func (r *memRepo) Close() error { return nil }
 
+// WatchPrefix: the harness plays the watches itself (it hands the events to the manager), so the
+// channel the real discovery loop reads from never carries anything; it is closed with the context.
+func (r *memRepo) WatchPrefix(ctx context.Context, _ string, _ bool) state.WatchEventChan {
+	ch := make(chan *state.Event)
+	go func() {
+		<-ctx.Done()
+		close(ch)
+	}()
+	return ch
+}
+
 // harness-side access (same lock)
 func (r *memRepo) set(key string, val []byte) {
 	r.mu.Lock()
@@ -382,6 +393,10 @@ type machine struct {
 	// what the harness last saw persisted for each database (after its last config event; forgotten
 	// when the database is dropped): "existing shards" of a grow are judged against this record
 	lastPersisted map[int]*models.ShardAssignment
+	// the running master: context of the manager, the state-machine factory of a master that took
+	// over (nil for the first master of a case, which starts on an empty repository)
+	cancel context.CancelFunc
+	fct    *master.StateMachineFactory
 }
 
 // Database names of the machine cases (the model knows databases by number). The names the
@@ -592,12 +607,13 @@ func (m *machine) event(c *core.Ctx, op string, ev *discovery.Event, publishes b
 
 // evStep is one scheduled event of a state-machine case.
 type evStep struct {
-	// up | down | cfg | cfgq | deliver | deliverlast | dup | putfail | statefail | burst | drop
+	// up | down | cfg | cfgq | deliver | deliverlast | dup | putfail | statefail | burst | failover | drop
 	kind string
 	// up/down: node id; cfg/cfgq: db, shards (create) or extra shards (grow), replica factor;
 	// drop/deliver/deliverlast/dup: db; putfail: which of the next assignment Puts fails (1 or 2)
 	a, b, c int
-	// burst: node events handed to the real EmitEvent back to back while the repository stalls
+	// burst: node events handed to the real EmitEvent back to back while the repository stalls;
+	// failover: what happens to the repository while no master is running (down/up: node id, drop: db)
 	burst []evStep
 }
 
@@ -655,6 +671,15 @@ var scripts = [][]evStep{
 		{"cfg", 0, 4, 2, nil}, {"cfg", 1, 5, 2, nil}, {"cfg", 2, 6, 3, nil}, {"drop", 0, 0, 0, nil}, {"cfg", 1, 2, 0, nil}, {"cfg", 2, 3, 0, nil},
 		{"cfg", 0, 3, 1, nil}, {"drop", 1, 0, 0, nil}, {"cfg", 0, 1, 0, nil}, {"cfg", 2, 1, 0, nil}, {"drop", 0, 0, 0, nil}, {"cfg", 2, 2, 0, nil},
 		{"drop", 2, 0, 0, nil}, {"cfg", 1, 3, 2, nil}, {"cfg", 0, 2, 2, nil}, {"drop", 1, 0, 0, nil}, {"cfg", 0, 3, 0, nil}},
+	// 10: master fail-over — nodes die / join and a database is dropped while no master is watching; a quiet fail-over;
+	// a fail-over with an undelivered assignment and a database whose creation had failed
+	{{"up", 1, 0, 0, nil}, {"up", 2, 0, 0, nil}, {"up", 3, 0, 0, nil}, {"cfg", 0, 4, 2, nil}, {"cfg", 1, 3, 1, nil}, {"cfg", 2, 2, 3, nil},
+		{kind: "failover", burst: []evStep{{"down", 1, 0, 0, nil}, {"drop", 1, 0, 0, nil}}},
+		{"up", 1, 0, 0, nil}, {"down", 2, 0, 0, nil}, {kind: "failover"}, {"cfg", 0, 2, 0, nil}, {"down", 3, 0, 0, nil},
+		{kind: "failover", burst: []evStep{{"up", 4, 0, 0, nil}, {"down", 1, 0, 0, nil}, {"up", 2, 0, 0, nil}}},
+		{"cfgq", 0, 3, 0, nil}, {"cfg", 1, 2, 5, nil}, {kind: "failover", burst: []evStep{{"down", 4, 0, 0, nil}, {"up", 5, 0, 0, nil}, {"up", 6, 0, 0, nil}, {"up", 7, 0, 0, nil}}},
+		{"down", 2, 0, 0, nil}, {"up", 4, 0, 0, nil}, {kind: "failover", burst: []evStep{{"down", 2, 0, 0, nil}, {"down", 4, 0, 0, nil}, {"down", 5, 0, 0, nil}, {"down", 6, 0, 0, nil}, {"down", 7, 0, 0, nil}, {"drop", 0, 0, 0, nil}}},
+		{"up", 1, 0, 0, nil}},
 }
 
 func machineCase(c *core.Ctx, r *rand.Rand) {
@@ -676,6 +701,10 @@ func machineCase(c *core.Ctx, r *rand.Rand) {
 		nDB = 2
 	} else {
 		c.Branch("case-prompt-watch")
+	}
+	failovers := r.Intn(3) == 0
+	if failovers {
+		c.Branch("case-with-failovers")
 	}
 	bursty := r.Intn(4) == 0
 	if bursty {
@@ -737,6 +766,25 @@ func machineCase(c *core.Ctx, r *rand.Rand) {
 			default:
 				evs = append(evs, evStep{"putfail", 1 + r.Intn(2), 0, 0, nil})
 			}
+			continue
+		}
+		if failovers && r.Intn(9) == 0 { // master fail-over; meanwhile nodes die / join, a database is dropped
+			var sil []evStep
+			for x := r.Intn(3); x > 0; x-- {
+				id := pick(r.Intn(5) != 0)
+				delete(live, id)
+				sil = append(sil, evStep{"down", id, 0, 0, nil})
+			}
+			if r.Intn(3) == 0 {
+				id := pick(false)
+				live[id] = true
+				sil = append(sil, evStep{"up", id, 0, 0, nil})
+			}
+			if r.Intn(4) == 0 {
+				sil = append(sil, evStep{"drop", r.Intn(nDB), 0, 0, nil})
+			}
+			evs = append(evs, evStep{kind: "failover", burst: sil})
+			pend = map[int]int{}
 			continue
 		}
 		if bursty && r.Intn(12) == 0 { // a burst of node events through EmitEvent; every event flips a node
@@ -858,17 +906,62 @@ func (m *machine) persisted(d int) (*models.ShardAssignment, string) {
 	return asg, string(raw)
 }
 
+// judgePlacement evaluates the placement clauses of C18 on the PERSISTED assignment of database d
+// after a config event for cfg was handled (the repository is what storage nodes and brokers read),
+// whatever the manager holds in memory. before/oldRaw: what was persisted before the event;
+// liveNow: the nodes registered when the event was handled.
+func (m *machine) judgePlacement(c *core.Ctx, d int, cfg *models.Database, before *models.ShardAssignment, oldRaw string,
+	liveNow []models.NodeID) (*models.ShardAssignment, string, bool) {
+	after, newRaw := m.persisted(d)
+	if after == nil && newRaw != "" {
+		c.Fail("assignment-unmarshal", "persisted assignment of "+cfg.Name+" does not parse")
+		return nil, newRaw, false
+	}
+	// placement clauses of C18, evaluated on the PERSISTED assignment (the repository is what
+	// storage nodes and brokers read), whatever the manager holds in memory
+	if after != nil && newRaw != oldRaw {
+		lo := 0
+		if before != nil {
+			// growing the shard count keeps existing shards where they are
+			lo = len(before.Shards)
+			for id, rp := range before.Shards {
+				if a2 := after.Shards[id]; a2 == nil || showReplicas(a2.Replicas) != showReplicas(rp.Replicas) {
+					c.Fail("grow-moved-existing", fmt.Sprintf("dbcfg %d (%d shards): persisted shard %d was %v, now %v", d, cfg.NumOfShard, id, rp.Replicas, a2))
+				}
+			}
+			c.Branch("ev-grow-assigned")
+		} else {
+			c.Branch("ev-create-assigned")
+		}
+		// every new shard (all shards of a created database): rf distinct nodes alive now, round-robin
+		checkAssignment(c, fmt.Sprintf("dbcfg %d", d), after, liveNow, cfg.ReplicaFactor, lo, len(after.Shards))
+		// and the database has the configured number of shards, numbered from 0
+		if len(after.Shards) != cfg.NumOfShard {
+			c.Fail("assign-shard-count", fmt.Sprintf("dbcfg %d: %d shards configured, %d persisted", d, cfg.NumOfShard, len(after.Shards)))
+		}
+		for id := range after.Shards {
+			if int(id) < 0 || int(id) >= len(after.Shards) {
+				c.Fail("assign-shard-count", fmt.Sprintf("dbcfg %d: shard id %d outside 0..%d", d, id, len(after.Shards)-1))
+			}
+		}
+		c.NonTrivial()
+	}
+	if after != nil {
+		m.lastPersisted[d] = after
+	}
+	return after, newRaw, true
+}
+
 // machineRun feeds the events into a fresh real stateManager (in-memory repo) one by one.
 // For "cfg"/"cfgq": an unknown db is created with b shards and replica factor c; a known db grows
 // by b%4 shards (0 = re-trigger of the unchanged assignment). "cfg" delivers the assignment watch
 // event(s) of the database at once, "cfgq" leaves the new payload undelivered.
 func machineRun(c *core.Ctx, _ *rand.Rand, evs []evStep) {
 	ctx, cancel := context.WithCancel(context.Background())
-	defer cancel()
 	repo := &memRepo{kv: map[string][]byte{}, asgPuts: map[string]int{}}
-	m := &machine{repo: repo, mgr: master.NewStateManager(ctx, repo, nil), live: map[int]bool{}, dbs: map[int]*models.Database{},
+	m := &machine{repo: repo, mgr: master.NewStateManager(ctx, repo, nil), cancel: cancel, live: map[int]bool{}, dbs: map[int]*models.Database{},
 		pending: map[int][][]byte{}, lastRaw: map[int][]byte{}, delivered: map[int]*models.ShardAssignment{}, lastPersisted: map[int]*models.ShardAssignment{}}
-	defer m.mgr.Close()
+	defer func() { m.stopMaster() }()
 	c.Op("reset", "ok")
 	for _, e := range evs {
 		switch e.kind {
@@ -910,6 +1003,8 @@ func machineRun(c *core.Ctx, _ *rand.Rand, evs []evStep) {
 			c.Branch("ev-arm-state-fault")
 		case "burst":
 			m.burst(c, e.burst)
+		case "failover":
+			m.failover(c, e.burst)
 		case "cfg", "cfgq": // create database / grow shards
 			d := e.a
 			cfg, ok := m.dbs[d]
@@ -932,6 +1027,7 @@ func machineRun(c *core.Ctx, _ *rand.Rand, evs []evStep) {
 			putsBefore := repo.puts(asgKey)
 			armed := repo.failAsgPut > 0
 			m.dbs[d] = cfg
+			repo.set(constants.GetDatabaseConfigPath(cfg.Name), data)
 			liveNow := m.liveIDs()
 			m.event(c, fmt.Sprintf("dbcfg %d", d), &discovery.Event{Type: discovery.DatabaseConfigChanged,
 				Key: constants.GetDatabaseConfigPath(cfg.Name), Value: data}, false)
@@ -939,42 +1035,9 @@ func machineRun(c *core.Ctx, _ *rand.Rand, evs []evStep) {
 				c.Branch("ev-put-fault-hit")
 			}
 			repo.failAsgPut = 0 // the fault is for this config event only
-			after, newRaw := m.persisted(d)
-			if after == nil && newRaw != "" {
-				c.Fail("assignment-unmarshal", "persisted assignment of "+cfg.Name+" does not parse")
+			after, newRaw, okp := m.judgePlacement(c, d, cfg, before, oldRaw, liveNow)
+			if !okp {
 				continue
-			}
-			// placement clauses of C18, evaluated on the PERSISTED assignment (the repository is what
-			// storage nodes and brokers read), whatever the manager holds in memory
-			if after != nil && newRaw != oldRaw {
-				lo := 0
-				if before != nil {
-					// growing the shard count keeps existing shards where they are
-					lo = len(before.Shards)
-					for id, rp := range before.Shards {
-						if a2 := after.Shards[id]; a2 == nil || showReplicas(a2.Replicas) != showReplicas(rp.Replicas) {
-							c.Fail("grow-moved-existing", fmt.Sprintf("dbcfg %d (%d shards): persisted shard %d was %v, now %v", d, cfg.NumOfShard, id, rp.Replicas, a2))
-						}
-					}
-					c.Branch("ev-grow-assigned")
-				} else {
-					c.Branch("ev-create-assigned")
-				}
-				// every new shard (all shards of a created database): rf distinct nodes alive now, round-robin
-				checkAssignment(c, fmt.Sprintf("dbcfg %d", d), after, liveNow, cfg.ReplicaFactor, lo, len(after.Shards))
-				// and the database has the configured number of shards, numbered from 0
-				if len(after.Shards) != cfg.NumOfShard {
-					c.Fail("assign-shard-count", fmt.Sprintf("dbcfg %d: %d shards configured, %d persisted", d, cfg.NumOfShard, len(after.Shards)))
-				}
-				for id := range after.Shards {
-					if int(id) < 0 || int(id) >= len(after.Shards) {
-						c.Fail("assign-shard-count", fmt.Sprintf("dbcfg %d: shard id %d outside 0..%d", d, id, len(after.Shards)-1))
-					}
-				}
-				c.NonTrivial()
-			}
-			if after != nil {
-				m.lastPersisted[d] = after
 			}
 			// every successful Put makes the etcd watch emit the payload (one is kept per config event)
 			if repo.puts(asgKey) > putsBefore {
@@ -1028,6 +1091,7 @@ func machineRun(c *core.Ctx, _ *rand.Rand, evs []evStep) {
 			d := e.a
 			name := dbName(d)
 			repo.del(constants.GetDatabaseAssignPath(name))
+			repo.del(constants.GetDatabaseConfigPath(name))
 			delete(m.lastPersisted, d)
 			others := repo.snapshot(constants.ShardAssignmentPath + "/")
 			_, known := m.dbs[d]
@@ -1055,6 +1119,245 @@ func machineRun(c *core.Ctx, _ *rand.Rand, evs []evStep) {
 }
 
 const sentinelDB = 900
+
+func markerCfg() *models.Database {
+	return &models.Database{Name: dbName(sentinelDB), NumOfShard: 0, ReplicaFactor: 1}
+}
+
+// quiesce waits until the manager's consumer goroutine has handled everything emitted so far: it
+// emits a marker (a config event of database 900 with 0 shards — nothing is assigned, the handler
+// only looks the assignment up in the repository, which is what the harness waits for; idempotent,
+// re-emitted only if the manager did not get to it in time) and then takes the manager's read lock.
+// The caller has to account for the marker in the op stream (`dbcfg 900`).
+func (m *machine) quiesce() bool {
+	repo := m.repo
+	repo.mu.Lock()
+	repo.sentinelKey = constants.GetDatabaseAssignPath(dbName(sentinelDB))
+	repo.sentinelSeen = make(chan struct{}, 1)
+	seen := repo.sentinelSeen
+	repo.mu.Unlock()
+	defer func() {
+		repo.mu.Lock()
+		repo.sentinelKey, repo.sentinelSeen = "", nil
+		repo.mu.Unlock()
+	}()
+	data, _ := json.Marshal(markerCfg())
+	marker := &discovery.Event{Type: discovery.DatabaseConfigChanged, Key: constants.GetDatabaseConfigPath(dbName(sentinelDB)), Value: data}
+	deadline := time.Now().Add(10 * time.Second)
+	for {
+		m.mgr.EmitEvent(marker)
+		select {
+		case <-seen:
+			_ = m.mgr.GetStorageState() // read lock: returns after the marker's handler has finished
+			return true
+		case <-time.After(20 * time.Millisecond):
+			if time.Now().After(deadline) {
+				return false
+			}
+		}
+	}
+}
+
+func (m *machine) stopMaster() {
+	if m.fct != nil {
+		m.fct.Stop()
+		m.fct = nil
+	}
+	m.mgr.Close()
+	m.cancel()
+}
+
+// recFactory is the discovery factory the taking-over master is started with: the REAL discovery
+// (list the prefix, hand every key to the state machine's listener, start the watch) on the
+// in-memory repository, with a listener in between that records what was handed over, and a pause
+// after each state machine's initial listing until the manager has handled those events (so that
+// what the next state machine lists does not depend on goroutine timing).
+type recFactory struct {
+	discovery.Factory
+	m      *machine
+	phases [][]recEvent
+}
+
+type recEvent struct {
+	prefix, key string
+	value       []byte
+}
+
+type recDiscovery struct {
+	inner discovery.Discovery
+	f     *recFactory
+}
+
+func (d *recDiscovery) Close() { d.inner.Close() }
+
+type recListener struct {
+	discovery.Listener
+	f      *recFactory
+	prefix string
+}
+
+func (l *recListener) OnCreate(key string, resource []byte) {
+	n := len(l.f.phases) - 1
+	l.f.phases[n] = append(l.f.phases[n], recEvent{l.prefix, key, append([]byte(nil), resource...)})
+	l.Listener.OnCreate(key, resource)
+}
+
+func (f *recFactory) CreateDiscovery(prefix string, listener discovery.Listener) discovery.Discovery {
+	f.phases = append(f.phases, nil)
+	return &recDiscovery{inner: f.Factory.CreateDiscovery(prefix, &recListener{Listener: listener, f: f, prefix: prefix}), f: f}
+}
+
+func (d *recDiscovery) Discovery(init bool) error {
+	if err := d.inner.Discovery(init); err != nil {
+		return err
+	}
+	if !d.f.m.quiesce() {
+		return fmt.Errorf("manager did not reach the marker")
+	}
+	return nil
+}
+
+// failover: the running master goes away (Close), things happen to the repository while no master
+// is watching (storage nodes die or register: their ephemeral keys vanish / appear; a database is
+// dropped: its config and assignment keys are removed), a new master is built on the same
+// repository and started the way production starts it: StateMachineFactory.Start lists the live
+// nodes, the database configs, the shard assignments and the limits, in this order, and emits
+// one event per key. Nothing of the old master's memory may survive: what the new master reports
+// is a function of the repository alone.
+func (m *machine) failover(c *core.Ctx, silent []evStep) {
+	repo := m.repo
+	c.Branch("ev-failover")
+	m.stopMaster()
+	for _, e := range silent {
+		switch e.kind {
+		case "down":
+			if m.live[e.a] {
+				c.Branch("failover-silent-node-death")
+			}
+			repo.del(constants.GetStorageLiveNodePath(strconv.Itoa(e.a)))
+			delete(m.live, e.a)
+		case "up":
+			node := models.StatefulNode{ID: models.NodeID(e.a)}
+			node.HostIP = "10.0.0." + strconv.Itoa(e.a)
+			data, _ := json.Marshal(&node)
+			repo.set(constants.GetStorageLiveNodePath(strconv.Itoa(e.a)), data)
+			if !m.live[e.a] {
+				c.Branch("failover-silent-node-join")
+			}
+			m.live[e.a] = true
+		case "drop":
+			if _, ok := m.dbs[e.a]; ok {
+				c.Branch("failover-silent-db-drop")
+			}
+			repo.del(constants.GetDatabaseAssignPath(dbName(e.a)))
+			repo.del(constants.GetDatabaseConfigPath(dbName(e.a)))
+			delete(m.dbs, e.a)
+			delete(m.lastPersisted, e.a)
+		}
+	}
+	// the old master's watches are gone with it
+	m.pending, m.lastRaw = map[int][][]byte{}, map[int][]byte{}
+	m.delivered = map[int]*models.ShardAssignment{}
+	known := m.dbs // the configs in the repository; the new master learns them from the replay
+	m.dbs = map[int]*models.Database{}
+	repo.mu.Lock()
+	repo.failAsgPut, repo.failStatePut = 0, false
+	repo.mu.Unlock()
+	c.Op("reset", "ok")
+
+	// what is persisted before the new master looks at the configs
+	type persistedBefore struct {
+		asg *models.ShardAssignment
+		raw string
+	}
+	before := map[int]persistedBefore{}
+	for d := range known {
+		a, raw := m.persisted(d)
+		if rec := m.lastPersisted[d]; rec != nil {
+			a = rec
+		}
+		before[d] = persistedBefore{a, raw}
+	}
+	liveNow := m.liveIDs()
+
+	ctx, cancel := context.WithCancel(context.Background())
+	m.cancel = cancel
+	m.mgr = master.NewStateManager(ctx, repo, nil)
+	rf := &recFactory{Factory: discovery.NewFactory(repo), m: m}
+	m.fct = master.NewStateMachineFactory(ctx, rf, m.mgr)
+	var startErr error
+	func() {
+		defer func() {
+			if r := recover(); r != nil {
+				startErr = fmt.Errorf("panic: %v", r)
+			}
+		}()
+		startErr = m.fct.Start()
+	}()
+	if startErr != nil {
+		c.Fail("failover-start-failed", startErr.Error())
+		c.Op("batch", "start-failed")
+		return
+	}
+	// one batch op for the model: every key handed over, in order, with the markers between phases
+	var segs []string
+	for _, ph := range rf.phases {
+		for _, ev := range ph {
+			switch ev.prefix {
+			case constants.StorageLiveNodesPath:
+				node := models.StatefulNode{}
+				_ = json.Unmarshal(ev.value, &node)
+				segs = append(segs, fmt.Sprintf("up %d", int(node.ID)))
+			case constants.DatabaseConfigPath:
+				cfg := &models.Database{}
+				_ = json.Unmarshal(ev.value, cfg)
+				d := dbID(cfg.Name)
+				m.dbs[d] = cfg
+				segs = append(segs, fmt.Sprintf("dbcfg %d", d))
+			case constants.ShardAssignmentPath:
+				asg := &models.ShardAssignment{}
+				if err := json.Unmarshal(ev.value, asg); err != nil {
+					c.Fail("assignment-unmarshal", err.Error())
+					continue
+				}
+				d := dbID(asg.Name)
+				m.delivered[d] = asg
+				m.lastRaw[d] = ev.value
+				segs = append(segs, fmt.Sprintf("asg %d %s", d, showAsg(asg)))
+			}
+		}
+		segs = append(segs, fmt.Sprintf("dbcfg %d", sentinelDB))
+	}
+	m.dbs[sentinelDB] = markerCfg()
+	op := "batch " + strings.Join(segs, " | ")
+	c.Op(op, m.dump())
+	// the replayed config events may have (re)assigned shards: same placement clauses as for a live config event
+	for d, cfg := range known {
+		if _, _, ok := m.judgePlacement(c, d, cfg, before[d].asg, before[d].raw, liveNow); !ok {
+			continue
+		}
+		// an assignment written by the config replay is listed by the assignment state machine that
+		// starts afterwards; nothing is left for the watch
+	}
+	m.oracle(c, "failover: "+op)
+	// the new master publishes with the first node / assignment event it handles; a replay without
+	// such an event (no node registered, no assignment persisted) publishes nothing and the previous
+	// master's last copy stays in the repository until the next publishing event — observed on the
+	// unchanged tree, counted, not judged
+	publishing := 0
+	for _, ph := range rf.phases {
+		for _, ev := range ph {
+			if ev.prefix == constants.StorageLiveNodesPath || ev.prefix == constants.ShardAssignmentPath {
+				publishing++
+			}
+		}
+	}
+	if publishing > 0 {
+		m.publishedOracle(c, "failover: "+op)
+	} else {
+		c.Branch("failover-nothing-to-publish")
+	}
+}
 
 // burst hands node events to the manager the way the discovery layer does: through the real
 // EmitEvent, from another goroutine, back to back, while the consumer goroutine is held inside the
@@ -1094,9 +1397,7 @@ func (m *machine) burst(c *core.Ctx, evs []evStep) {
 	stall := make(chan struct{})
 	repo.stall = stall
 	repo.stalled = make(chan struct{}, 1)
-	repo.sentinelKey = constants.GetDatabaseAssignPath(dbName(sentinelDB))
-	repo.sentinelSeen = make(chan struct{}, 1)
-	stalled, seen := repo.stalled, repo.sentinelSeen
+	stalled := repo.stalled
 	repo.mu.Unlock()
 	release := func() {
 		repo.mu.Lock()
@@ -1151,26 +1452,12 @@ func (m *machine) burst(c *core.Ctx, evs []evStep) {
 		ok = false
 		c.Fail("burst-emit-timeout", op)
 	}
-	// marker after the burst: a config event of a database with 0 shards (nothing is assigned, the
-	// handler only looks the assignment up in the repository, which is what the harness waits for)
-	cfg := &models.Database{Name: dbName(sentinelDB), NumOfShard: 0, ReplicaFactor: 1}
-	data, _ := json.Marshal(cfg)
-	marker := &discovery.Event{Type: discovery.DatabaseConfigChanged, Key: constants.GetDatabaseConfigPath(cfg.Name), Value: data}
-	deadline := time.Now().Add(10 * time.Second)
-	for reached := false; ok && !reached; {
-		m.mgr.EmitEvent(marker) // idempotent; repeated only if the manager did not get to it in time
-		select {
-		case <-seen:
-			reached = true
-		case <-time.After(20 * time.Millisecond):
-			if time.Now().After(deadline) {
-				ok = false
-				c.Fail("burst-quiescence-timeout", op)
-			}
-		}
+	if ok && !m.quiesce() {
+		ok = false
+		c.Fail("burst-quiescence-timeout", op)
 	}
 	repo.mu.Lock()
-	repo.sentinelKey, repo.sentinelSeen, repo.stalled = "", nil, nil
+	repo.stalled = nil
 	repo.mu.Unlock()
 	if !ok {
 		c.Op(op, "timeout")
@@ -1181,7 +1468,7 @@ func (m *machine) burst(c *core.Ctx, evs []evStep) {
 	c.Op(op, out)
 	m.oracle(c, op)
 	m.publishedOracle(c, op)
-	m.dbs[sentinelDB] = cfg
+	m.dbs[sentinelDB] = markerCfg()
 	c.Op(fmt.Sprintf("dbcfg %d", sentinelDB), m.dump())
 }
 
